@@ -103,7 +103,10 @@ def open_registry(filename, clear=False):
         else:
             acc += line
         try:
-            (key, value) = re.split(r'(?<!\\): ', acc, 1)
+            i = _unescapedFind(acc, ': ')
+            if i == -1:
+                raise ValueError('no ": " in the line')
+            (key, value) = (acc[:i], acc[i+2:])
             key = key.strip()
             value = value.strip('\r\n')
             value = decoder(value)[0]
@@ -193,9 +196,31 @@ def unescape(name):
     name = decoder(name.encode())[0]
     return name
 
-_splitRe = re.compile(r'(?<!\\)\.')
+def _unescapedFind(s, sub, start=0):
+    """Returns the index of the first occurrence of sub in s, at or after
+    start, that is not escaped (a backslash escapes the character after it,
+    whatever it is, so that an escaped backslash escapes nothing), or -1."""
+    i = start
+    while i < len(s):
+        if s[i] == '\\':
+            i += 2
+        elif s.startswith(sub, i):
+            return i
+        else:
+            i += 1
+    return -1
+
 def split(name):
-    return list(map(unescape, _splitRe.split(name)))
+    parts = []
+    start = 0
+    while True:
+        i = _unescapedFind(name, '.', start)
+        if i == -1:
+            parts.append(name[start:])
+            break
+        parts.append(name[start:i])
+        start = i + 1
+    return list(map(unescape, parts))
 
 def join(names):
     return '.'.join(map(escape, names))
